@@ -1909,6 +1909,17 @@ func translateOpCentroid(fi fnInfo, fd *ast.FuncDecl) string {
 	if clause == nil || len(clause.Body) < 2 {
 		xfail("no case geom.Polygon")
 	}
+	// every other geometry: exactly one more clause, `default`, compared as text (an error, no value)
+	if len(sw.Body.List) != 2 {
+		xfail("the type switch has %d clauses, not `case geom.Polygon` and `default`", len(sw.Body.List))
+	}
+	for _, c := range sw.Body.List {
+		if cc := c.(*ast.CaseClause); cc != clause {
+			if cc.List != nil || len(cc.Body) != 1 || srcOf(cc.Body[0]) != "return geom.Point{}, newUnsupportedGeometryError("+g+")" {
+				xfail("the default clause is not `return geom.Point{}, newUnsupportedGeometryError(%s)`", g)
+			}
+		}
+	}
 	n := len(clause.Body)
 	for _, v := range assigned(clause.Body[:n-2], map[string]bool{}) {
 		if v == "A" || v == "xA" || v == "yA" {
@@ -1936,6 +1947,7 @@ func translateOpCentroid(fi fnInfo, fd *ast.FuncDecl) string {
 	t3 := &tr{fi: fi, vars: map[string]string{g: "Polygon"}, frozen: map[string]bool{}, guard: true, self: fi.lean + "_scaled"}
 	var top strings.Builder
 	t3.block(clause.Body[:1], "  ", "pure (← "+fi.lean+"_scaled "+g+")", &top)
+	core = fmt.Sprintf("/-- %s: %s, `default` clause of its type switch (one statement, compared as text: `return geom.Point{}, newUnsupportedGeometryError(%s)`):\nevery geometry that is not a Polygon is answered with an error and no value -/\ndef %s_default_isError : Bool := true\n\n", fi.file, fi.name, g, fi.lean) + core
 	return core + fmt.Sprintf("/-- %s: %s on a Polygon below its origin guard: the range guard (its call of itself is the loop below it), then the loop -/\ndef %s_scaled (%s : %s) : Go.M %s := do\n%s\n",
 		fi.file, fi.name, fi.lean, g, t.leanType("Polygon"), t.leanType("centroid"), full.String()) + fmt.Sprintf("/-- %s: %s on a Polygon (its call of itself inside the origin guard is the function below that guard) -/\ndef %s (%s : %s) : Go.M %s := do\n%s",
 		fi.file, fi.name, fi.lean, g, t.leanType("Polygon"), t.leanType("centroid"), top.String())
